@@ -15,7 +15,8 @@ Extracted decisions (Python `ast` only; sqlframe is never imported)
       whether a Decimal nested in a list becomes a float                                   -> `toValueDecimalToFloat`
   sqlframe/base/functions.py lit: str -> string literal; +-inf -> string literal           -> `litStrIsStringLiteral`,
       `litInfIsString`
-  sqlframe/base/column.py  Column._lit: the ordered test chain                             -> `litChain`
+  sqlframe/base/column.py  Column._lit: the ordered test chain (NaN and infinity casts with their
+      texts and type, the datetime branch evaluated symbolically)                          -> `litChain`, `litAwareMode`, …
   sqlframe/base/util.py  get_column_mapping_from_schema_input: branch order, the DDL
       separators and indices, the single-token name, list names stripped                   -> `schemaBranchOrder`, `ddl*`
 
@@ -84,17 +85,62 @@ def _str_consts(node: ast.AST) -> t.List[str]:
 # ------------------------------------------------------------------------------------------------
 
 
-def _infer_chain(fn: ast.FunctionDef) -> t.List[t.Tuple[t.List[str], str]]:
+ROW_BRANCH = (
+    "row_types = []\n"
+    "for row_name, row_dtype in zip(value.__fields__, value):\n"
+    "    default_type = get_default_data_type(row_dtype)\n"
+    "    if not default_type:\n"
+    "        {untyped}\n"
+    "    row_types.append((row_name, default_type))\n"
+    "return 'struct<' + ', '.join((f'{{k}}: {{v}}' for k, v in row_types)) + '>'"
+)
+DICT_BRANCH = (
+    "sample_row = seq_get(list(value.items()), 0)\n"
+    "if not sample_row:\n"
+    "    return None\n"
+    "key, value = sample_row\n"
+    "default_key = get_default_data_type(key)\n"
+    "default_value = get_default_data_type(value)\n"
+    "if not default_key or not default_value:\n"
+    "    return None\n"
+    "return f'map<{default_key}, {default_value}>'"
+)
+SEQ_BRANCH = (
+    "{guard}default_type = get_default_data_type({sample})\n"
+    "if not default_type:\n"
+    "    return None\n"
+    "return f'array<{{default_type}}>'"
+)
+
+
+def _infer_chain(fn: ast.FunctionDef) -> t.Tuple[t.List[t.Tuple[t.List[str], str]], t.Dict[str, t.Any]]:
+    """([(classes, result)], decisions): besides the isinstance chain, the decisions that depend on the VALUE rather
+    than on its class: a leading `if not value: return None` (every falsy value is untyped), whether an empty
+    sequence is tested for, which element of a sequence is sampled, what a Row field of unknown type does to the
+    struct type (`continue` = the field is left out; `return None` = no type at all)"""
     ob = OB + ".inferChain"
     if [a.arg for a in fn.args.args] != ["value"]:
         raise Untranslatable(ob, "get_default_data_type parameters changed")
     chain, rest = _if_chain(fn.body, ob)
     if not (len(rest) == 1 and isinstance(rest[0], ast.Return) and isinstance(rest[0].value, ast.Constant) and rest[0].value.value is None):
         raise Untranslatable(ob, "chain does not end in `return None`")
+    dec: t.Dict[str, t.Any] = {"falsy_first": False, "struct_untyped": None, "seq_guard": None, "seq_sample": None}
+    # guards in front of the isinstance chain
+    while chain and not (isinstance(chain[0][0], ast.Call) and ast.unparse(chain[0][0].func) == "isinstance"):
+        test, body = chain.pop(0)
+        tsrc = ast.unparse(test)
+        if not (len(body) == 1 and isinstance(body[0], ast.Return) and isinstance(body[0].value, ast.Constant) and body[0].value.value is None):
+            raise Untranslatable(ob, f"a guard in front of the chain that does not `return None`: {tsrc!r}")
+        if tsrc == "not value":
+            dec["falsy_first"] = True
+        elif tsrc == "value is None":
+            pass  # the chain gives None for None anyway
+        else:
+            raise Untranslatable(ob, f"unsupported guard in front of the chain: {tsrc!r}")
     out = []
     for test, body in chain:
         classes = _isinstance_classes(test, "value", ob)
-        rets = _returns(body)
+        bsrc = "\n".join(ast.unparse(s) for s in body)
         if len(body) == 1 and isinstance(body[0], ast.Return) and isinstance(body[0].value, ast.Constant) and isinstance(body[0].value.value, str):
             res = f'.prim {lean_str(body[0].value.value)}'
         elif (
@@ -109,29 +155,41 @@ def _infer_chain(fn: ast.FunctionDef) -> t.List[t.Tuple[t.List[str], str]]:
             and isinstance(body[1].value, ast.Constant)
         ):
             res = f".tzSplit {lean_str(body[0].body[0].value.value)} {lean_str(body[1].value.value)}"
+        elif bsrc == ROW_BRANCH.format(untyped="continue"):
+            res, dec["struct_untyped"] = ".structOf", "skip"
+        elif bsrc == ROW_BRANCH.format(untyped="return None"):
+            res, dec["struct_untyped"] = ".structOf", "giveUp"
+        elif bsrc == DICT_BRANCH:
+            res = ".mapOf"
         else:
-            # composite: recognised by the type constructor text in the final return
-            last = body[-1]
-            if not isinstance(last, ast.Return) or last.value is None:
-                raise Untranslatable(ob, f"branch for {classes} does not end in a return")
-            consts = _str_consts(last.value)
-            heads = [c for c in consts if c.rstrip().endswith("<") or c.startswith(("struct<", "map<", "array<"))]
-            kind = None
-            for c in heads:
-                for k in ("struct", "map", "array"):
-                    if c.startswith(k + "<"):
-                        kind = k
-            if kind is None:
-                raise Untranslatable(ob, f"branch for {classes}: unrecognised result {ast.unparse(last)!r}")
-            # every other return of the branch must be `return None`
-            for r in rets:
-                if r is last:
-                    continue
-                if not (isinstance(r.value, ast.Constant) and r.value.value is None):
-                    raise Untranslatable(ob, f"branch for {classes}: unexpected early return {ast.unparse(r)!r}")
-            res = {"struct": ".structOf", "map": ".mapOf", "array": ".arrayOf"}[kind]
+            res = None
+            for guard in (True, False):
+                for sample in ("next(iter(value))", "value[0]"):
+                    if bsrc == SEQ_BRANCH.format(guard="if not value:\n    return None\n" if guard else "", sample=sample):
+                        res, dec["seq_guard"], dec["seq_sample"] = ".arrayOf", guard, "first"
+            if res is None:
+                raise Untranslatable(ob, f"branch for {classes}: unsupported body {bsrc!r}")
         out.append((classes, res))
-    return out
+    kinds = [r for _, r in out]
+    if kinds.count(".structOf") > 1 or kinds.count(".arrayOf") > 1 or kinds.count(".mapOf") > 1:
+        raise Untranslatable(ob, "more than one struct / array / map branch")
+    if ".arrayOf" in kinds and not dec["seq_guard"] and not dec["falsy_first"]:
+        raise Untranslatable(ob, "an empty sequence is sampled without a test (StopIteration / IndexError)")
+    return out, dec
+
+
+def _sample_row(cdf: ast.FunctionDef) -> None:
+    """types are inferred from `rows[0]`, by name for Row / dict rows and by position otherwise"""
+    ob = OB + ".sampleRow"
+    src = ast.unparse(cdf)
+    if src.count("sample_row = rows[0]") != 1:
+        raise Untranslatable(ob, "the sampled row is no longer `rows[0]`")
+    for frag in ("get_default_data_type(sample_row[name])", "get_default_data_type(sample_row[i])",
+                 "exp.DataType.build(default_data_type, dialect='spark') if default_data_type else None"):
+        if frag not in src:
+            raise Untranslatable(ob, f"the per-column inference no longer contains {frag!r}")
+    if src.count("get_default_data_type(") != 1 + 4 + 2:  # the def, the recursive calls of the composite branches, two call sites
+        raise Untranslatable(ob, "unexpected number of get_default_data_type call sites")
 
 
 def _auto_names(cdf: ast.FunctionDef) -> t.Tuple[str, int, int]:
@@ -333,8 +391,69 @@ def _functions_lit(repo: str) -> t.Tuple[bool, bool, t.Optional[str]]:
     return str_lit, inf_str, nan_ty
 
 
-def _column_lit(repo: str) -> t.List[t.Tuple[t.List[str], str, str]]:
-    """ordered [(classes, condition, kind)]"""
+UTC_EXPR = "datetime.timezone.utc"
+
+
+def _ts_expr(e: ast.expr, env: t.Dict[str, t.Tuple[str, str]], ob: str) -> t.Tuple[str, str]:
+    """symbolic value of an expression of the datetime branch: ("dt", mode) a datetime derived from the argument,
+    ("text", mode) its `isoformat(sep=' ')`, ("type", NAME) a sqlglot DataType.Type member.
+    mode: keep (the argument itself) | convert (`astimezone(utc)`: same instant, UTC fields) |
+          relabel (`replace(tzinfo=utc)`: same fields, another instant)"""
+    if isinstance(e, ast.Name):
+        if e.id not in env:
+            raise Untranslatable(ob, f"unknown name {e.id!r} in the datetime branch")
+        return env[e.id]
+    src = ast.unparse(e)
+    if isinstance(e, ast.Attribute) and src.startswith("exp.DataType.Type."):
+        return ("type", e.attr)
+    if isinstance(e, ast.Call) and isinstance(e.func, ast.Attribute):
+        recv = _ts_expr(e.func.value, env, ob)
+        meth = e.func.attr
+        args = [ast.unparse(a) for a in e.args]
+        kws = {k.arg: ast.unparse(k.value) for k in e.keywords}
+        if recv[0] == "dt" and meth == "astimezone" and (args, kws) in (([UTC_EXPR], {}), ([], {"tz": UTC_EXPR})):
+            if recv[1] != "keep":
+                raise Untranslatable(ob, f"two time-zone steps: {src!r}")
+            return ("dt", "convert")
+        if recv[0] == "dt" and meth == "replace" and (args, kws) == ([], {"tzinfo": UTC_EXPR}):
+            if recv[1] == "convert":
+                return ("dt", "convert")
+            if recv[1] != "keep":
+                raise Untranslatable(ob, f"two time-zone steps: {src!r}")
+            return ("dt", "relabel")
+        if recv[0] == "dt" and meth == "isoformat" and (args, kws) in (([], {"sep": "' '"}), (["' '"], {})):
+            return ("text", recv[1])
+    raise Untranslatable(ob, f"unsupported expression in the datetime branch: {src!r}")
+
+
+def _ts_path(stmts: t.Sequence[ast.stmt], ob: str) -> t.Tuple[str, str]:
+    """one straight-line path of the datetime branch -> (mode, CAST type)"""
+    env: t.Dict[str, t.Tuple[str, str]] = {"value": ("dt", "keep")}
+    for st in stmts:
+        if isinstance(st, ast.Assign) and len(st.targets) == 1 and isinstance(st.targets[0], ast.Name):
+            env[st.targets[0].id] = _ts_expr(st.value, env, ob)
+            continue
+        if isinstance(st, ast.Return):
+            r = st.value
+            if not (isinstance(r, ast.Call) and ast.unparse(r.func) == "cls" and len(r.args) == 1 and not r.keywords):
+                raise Untranslatable(ob, f"unsupported return {ast.unparse(st)!r}")
+            c = r.args[0]
+            if not (isinstance(c, ast.Call) and ast.unparse(c.func) == "exp.cast" and len(c.args) == 2 and not c.keywords):
+                raise Untranslatable(ob, f"the datetime literal is not an exp.cast: {ast.unparse(c)!r}")
+            lit, ty = c.args
+            if not (isinstance(lit, ast.Call) and ast.unparse(lit.func) == "exp.Literal.string" and len(lit.args) == 1 and not lit.keywords):
+                raise Untranslatable(ob, f"the datetime literal is not a string literal: {ast.unparse(lit)!r}")
+            text = _ts_expr(lit.args[0], env, ob)
+            tyv = _ts_expr(ty, env, ob)
+            if text[0] != "text" or tyv[0] != "type":
+                raise Untranslatable(ob, f"unsupported datetime literal {ast.unparse(c)!r}")
+            return text[1], tyv[1]
+        raise Untranslatable(ob, f"unsupported statement in the datetime branch: {ast.unparse(st)!r}")
+    raise Untranslatable(ob, "a path of the datetime branch does not return")
+
+
+def _column_lit(repo: str) -> t.Tuple[t.List[t.Tuple[t.List[str], str, str]], t.Dict[str, str]]:
+    """ordered [(classes, condition, kind)], and how a naive / an aware datetime is written"""
     ob = OB + ".litChain"
     mod = parse(repo, "sqlframe/base/column.py")
     fn = find_func(find_class(mod, "Column").body, "_lit")
@@ -343,6 +462,7 @@ def _column_lit(repo: str) -> t.List[t.Tuple[t.List[str], str, str]]:
     if not (len(rest) == 1 and isinstance(rest[0], ast.Return) and ast.unparse(rest[0].value) == "cls(exp.convert(value))"):
         raise Untranslatable(ob, "_lit no longer ends in exp.convert(value)")
     out = []
+    ts: t.Dict[str, str] = {}
     for test, b in chain:
         tsrc = ast.unparse(test)
         bsrc = "\n".join(ast.unparse(s) for s in b)
@@ -352,6 +472,18 @@ def _column_lit(repo: str) -> t.List[t.Tuple[t.List[str], str, str]]:
                 raise Untranslatable(ob, f"unsupported NaN branch {bsrc!r}")
             ty = _str_consts(rets[0].value)[-1]
             out.append((["float"], "isNan", f".nanCast {lean_str(ty)}"))
+            continue
+        if tsrc in ("isinstance(value, float) and math.isinf(value)", "value is not None and isinstance(value, float) and math.isinf(value)"):
+            # an infinity has no number literal: CAST('<pos>' if value > 0 else '<neg>' AS <ty>)
+            import re
+
+            m = re.fullmatch(
+                r"return cls\(exp\.cast\(exp\.Literal\.string\('([^'\\]*)' if value > 0 else '([^'\\]*)'\), exp\.DataType\.build\('([A-Za-z]+)'\)\)\)",
+                bsrc,
+            )
+            if not m:
+                raise Untranslatable(ob, f"unsupported infinity branch {bsrc!r}")
+            out.append((["float"], "isInf", f".infCast {lean_str(m.group(1))} {lean_str(m.group(2))} {lean_str(m.group(3))}"))
             continue
         classes = _isinstance_classes(test, "value", ob)
         if "exp.Struct(" in bsrc:
@@ -363,19 +495,30 @@ def _column_lit(repo: str) -> t.List[t.Tuple[t.List[str], str, str]]:
         elif "exp.VarMap(" in bsrc:
             kind = ".varmap"
         elif classes == ["datetime.datetime"]:
-            # if value.tzinfo is None: naive -> TIMESTAMP else: astimezone(utc) -> TIMESTAMPTZ
-            if len(b) != 1 or not isinstance(b[0], ast.If) or ast.unparse(b[0].test) != "value.tzinfo is None":
+            # if value.tzinfo is None: <naive path> else: <aware path>  [shared tail]; each path is straight-line code
+            # over `value`, evaluated symbolically (`_ts_path`)
+            if not b or not isinstance(b[0], ast.If) or not b[0].orelse:
                 raise Untranslatable(ob, "unsupported datetime branch")
-            naive, aware = "\n".join(ast.unparse(s) for s in b[0].body), "\n".join(ast.unparse(s) for s in b[0].orelse)
-            if "value.isoformat(sep=' ')" not in naive or "exp.DataType.Type.TIMESTAMP)" not in naive:
-                raise Untranslatable(ob, f"unsupported naive datetime literal {naive!r}")
-            if "value.astimezone(datetime.timezone.utc).isoformat(sep=' ')" not in aware or "exp.DataType.Type.TIMESTAMPTZ)" not in aware:
-                raise Untranslatable(ob, f"unsupported aware datetime literal {aware!r}")
-            kind = '.tsCast "TIMESTAMP" "TIMESTAMPTZ"'
+            t0 = ast.unparse(b[0].test)
+            if t0 in ("value.tzinfo is None", "not value.tzinfo"):
+                naive_b, aware_b = b[0].body, b[0].orelse
+            elif t0 in ("value.tzinfo is not None", "value.tzinfo"):
+                naive_b, aware_b = b[0].orelse, b[0].body
+            else:
+                raise Untranslatable(ob, f"unsupported naive/aware test {t0!r}")
+            tail = list(b[1:])
+            n_mode, n_ty = _ts_path(list(naive_b) + tail, ob)
+            a_mode, a_ty = _ts_path(list(aware_b) + tail, ob)
+            if n_mode != "keep":
+                raise Untranslatable(ob, "a naive datetime is moved to another zone (depends on the process's local zone)")
+            ts = {"naive_ty": n_ty, "aware_ty": a_ty, "aware_mode": a_mode}
+            kind = f".tsCast {lean_str(n_ty)} {lean_str(a_ty)}"
         else:
             raise Untranslatable(ob, f"unsupported branch {tsrc!r}")
         out.append((classes, "always", kind))
-    return out
+    if not ts:
+        raise Untranslatable(ob, "_lit has no datetime branch (exp.convert would write a DATETIME cast of sqlglot's own)")
+    return out, ts
 
 
 # ------------------------------------------------------------------------------------------------
@@ -485,7 +628,8 @@ def gen_values(repo: str) -> str:
     inner = [n for n in cdf.body if isinstance(n, ast.FunctionDef) and n.name == "get_default_data_type"]
     if len(inner) != 1:
         raise Untranslatable(OB + ".inferChain", "nested get_default_data_type not found")
-    chain = _infer_chain(inner[0])
+    chain, idec = _infer_chain(inner[0])
+    _sample_row(cdf)
     prefix, start, k = _auto_names(cdf)
     stripped = _names_stripped(cdf)
     cast_typed = _cast_typed(cdf)
@@ -493,7 +637,7 @@ def gen_values(repo: str) -> str:
     _cells_through_lit(cdf)
     tz, dec = _to_value_flags(sess)
     str_lit, inf_str, lit_nan_ty = _functions_lit(repo)
-    lchain = _column_lit(repo)
+    lchain, ts = _column_lit(repo)
     si = _schema_input(repo)
 
     L: t.List[str] = [HEADER, "", "namespace Sqlframe.Gen", ""]
@@ -504,6 +648,13 @@ def gen_values(repo: str) -> str:
     L.append("def inferChain : List (List String × InferRes) := [")
     L.append(",\n".join("  ([" + ", ".join(lean_str(c) for c in cl) + "], " + res + ")" for cl, res in chain))
     L.append("]")
+    L.append("/-- a leading `if not value: return None`: every falsy value (0, 0.0, False, '', b'') is left untyped -/")
+    L.append(f"def inferFalsyFirst : Bool := {str(idec['falsy_first']).lower()}")
+    L.append("/-- what a Row field whose type is unknown does to the struct type: left out (`continue`) / no type at all -/")
+    L.append("inductive StructUntyped | skip | giveUp deriving DecidableEq, Repr")
+    L.append(f"def inferStructUntyped : StructUntyped := .{idec['struct_untyped'] or 'skip'}")
+    L.append("/-- the sequence branch tests for an empty sequence itself -/")
+    L.append(f"def inferSeqEmptyGuard : Bool := {str(bool(idec['seq_guard'])).lower()}")
     L.append("")
     L.append(f"def autoNamePrefix : String := {lean_str(prefix)}")
     L.append(f"def autoNameStart : Nat := {start}")
@@ -520,13 +671,19 @@ def gen_values(repo: str) -> str:
     L.append(f"def litInfIsString : Bool := {str(inf_str).lower()}")
     L.append("/-- a NaN case inside `functions.lit` itself (reached by top-level values only): the CAST type -/")
     L.append("def litNanCast : Option String := " + ("none" if lit_nan_ty is None else f"some {lean_str(lit_nan_ty)}"))
-    L.append("inductive LitCond | always | isNan deriving DecidableEq, Repr")
-    L.append("inductive LitKind | struct | array | tuple | varmap | nanCast (ty : String) | tsCast (naive aware : String) | convert")
+    L.append("inductive LitCond | always | isNan | isInf deriving DecidableEq, Repr")
+    L.append("inductive LitKind | struct | array | tuple | varmap | nanCast (ty : String) | infCast (pos neg ty : String) | tsCast (naive aware : String) | convert")
     L.append("  deriving DecidableEq, Repr")
     L.append("/-- the ordered tests of `Column._lit`; a value that passes none goes to `exp.convert` -/")
     L.append("def litChain : List (List String × LitCond × LitKind) := [")
     L.append(",\n".join("  ([" + ", ".join(lean_str(c) for c in cl) + f"], .{cond}, {kind})" for cl, cond, kind in lchain))
     L.append("]")
+    L.append("/-- what `_lit` does to a datetime before `isoformat(sep=' ')`: nothing / `astimezone(utc)` (same instant) /")
+    L.append("    `replace(tzinfo=utc)` (same wall-clock fields, another instant) -/")
+    L.append("inductive TzMode | keep | convert | relabel deriving DecidableEq, Repr")
+    L.append(f"def litAwareMode : TzMode := .{ts['aware_mode']}")
+    L.append(f"def litNaiveTy : String := {lean_str(ts['naive_ty'])}")
+    L.append(f"def litAwareTy : String := {lean_str(ts['aware_ty'])}")
     L.append("")
     L.append("/-- `get_column_mapping_from_schema_input`: order in which the schema forms are recognised -/")
     L.append("def schemaBranchOrder : List String := [" + ", ".join(lean_str(x) for x in si["order"]) + "]")
